@@ -84,7 +84,7 @@ fn bad_utf8() -> Vec<Vec<u8>> {
 pub fn run(ctx: &Ctx) -> Report {
 	let refs = Refs::new(&ctx.root);
 	let mut total = Report::new();
-	total.rule = "W-method suite (S ∪ S·B)·Σ^{<=m}·W of the minimal reference DFA of each of the 20 types, every trace replayed against the compiled checked constructor; B = all 256 bytes (URI family) / lowest, highest and one interior scalar of every maximal interval of the reference partition (IRI family); Σ in the middle = one representative per behavioural class (or B where stated); plus all construction routes on the class-alphabet m=0 suite, all short byte strings, ill-formed UTF-8 splices for the from-bytes routes, and special scalars (Unicode white space, BOM, bidi / zero-width controls, case-mapping oddities, block boundaries) at the first, middle and last position of every state's access string. distinct_nontrivial counts conservatively the distinct strings of the transition cover S ∪ S·B (each continued by every W suffix).".into();
+	total.rule = "W-method suite (S ∪ S·B)·Σ^{<=m}·W of the minimal reference DFA of each of the 20 types, every trace replayed against the compiled checked constructor; B = all 256 bytes (URI family) / lowest, highest and one interior scalar of every maximal interval of the reference partition (IRI family); Σ in the middle = one representative per behavioural class (or B where stated); plus pumping traces access(s).a^k.w (k up to 65) for every class a on which state s loops (repetition bounds), all construction routes on the class-alphabet m=0 suite, all short byte strings, ill-formed UTF-8 splices for the from-bytes routes, and special scalars (Unicode white space, BOM, bidi / zero-width controls, case-mapping oddities, block boundaries) at the first, middle and last position of every state's access string. distinct_nontrivial counts conservatively the distinct strings of the transition cover S ∪ S·B (each continued by every W suffix).".into();
 	let types = validated_types();
 	let mut per_type = serde_json::Map::new();
 	for (f, k) in types {
@@ -142,6 +142,44 @@ pub fn run(ctx: &Ctx) -> Report {
 				total.cap(format!("wall clock reached in suite of {} (m={m}, middle={mname})", tyname(f, k)));
 				return total;
 			}
+		}
+		// pumping: wherever the reference DFA loops on a class (an unbounded repetition of the
+		// grammar), the implementation must loop too - a repetition BOUND (a counter with up to 64
+		// extra states) is outside what a small m can see. access(s) . a^k . w for every loop.
+		{
+			let r = run_shards(ctx, n_states, |ai| {
+				let mut r = Report::new();
+				let mut vs = Vec::new();
+				let mut buf = Vec::new();
+				let (acc, st) = &suite.access[ai];
+				for a in &suite.class_reps {
+					if d.step(*st, *a) != Some(*st) {
+						continue;
+					}
+					for reps in [2usize, 3, 4, 5, 6, 7, 8, 9, 15, 16, 17, 32, 64, 65] {
+						for w in &suite.w {
+							let mut syms = acc.clone();
+							syms.extend(std::iter::repeat(*a).take(reps));
+							let mut t = *st;
+							for x in w {
+								syms.push(*x);
+								t = d.step(t, *x).unwrap();
+							}
+							syms_to_bytes(&syms, bt, &mut buf);
+							r.traces += 1;
+							check_trace(f, k, &buf, d.accept[t as usize], &mut vs);
+							for v in vs.drain(..) {
+								r.violate(v);
+							}
+						}
+					}
+				}
+				r.evaluations = r.traces;
+				r
+			});
+			total.count("pumping_traces", r.traces);
+			type_traces += r.traces;
+			total.merge(r);
 		}
 		// distinct transition-cover strings
 		let mut pset = std::collections::BTreeSet::new();
